@@ -30,13 +30,11 @@ TOL_CG = 1e-4          # CG / Lanczos paths under max_cholesky_size(0) with cg_t
 TOL_CIQ = 1e-3         # contour integral quadrature (sqrt_inv_matmul): 15 quadrature nodes, measured forward error
 #                        up to ~2e-5 relative on the grid, gradients up to ~1e-4
 TOL_MEMEFF = 1e-10
-# CG / stochastic Lanczos quadrature WITH a preconditioner P: the probes are z ~ N(0, P) and the estimator normalises them
-# (n * mean_k e_k^T f(.) e_k over the directions of P^(-1/2) z_k), so it is exact only for isotropic directions: it cannot be
-# made exact with a finite orthogonal set without knowing P^(1/2).  The family therefore uses PRECOND_SAMPLES seeded Gaussian
-# probes; measured gradient noise on 4x4 operators <= ~2 % of the largest entry (upstream weights in [-6, -4], so entries
-# are O(1..10)); a mis-weighted preconditioner term is an O(1) relative error of a comparable term.
-PRECOND_SAMPLES = 100000
-TOL_PRECOND = 0.08
+# CG / stochastic Lanczos quadrature WITH a preconditioner P: the probes are z ~ N(0, P) and the estimator normalises them,
+# so it is exact only when the directions of P^(-1/2) z_k form an equal-norm tight frame.  The harness replaces the random
+# sampler `zero_mean_mvn_samples` (not part of any gradient code) by  z_k = P^(1/2) sqrt(n) q_k, q_k orthonormal, k = 1..n
+# (exact_probe_sampler below): then (1/n) sum z_k z_k^T = P and P^(-1/2) z_k are orthogonal of equal norm, and both the
+# logdet value and its gradient are exact (measured 1e-15), with or without preconditioner.
 
 SYM_FNS = {"solve", "solve_lhs", "inv_quad", "logdet", "inv_quad_logdet", "root_decomposition",
            "root_inv_decomposition", "cholesky", "pivoted_cholesky", "sqrt_inv_matmul", "sqrt_inv_matmul_lhs"}
@@ -596,6 +594,34 @@ class DetRandn:
 
 
 @contextlib.contextmanager
+def exact_probe_sampler():
+    """replace every class's zero_mean_mvn_samples by the deterministic equal-norm tight frame  P^(1/2) sqrt(n) q_k
+    (samples-first layout (S, *batch, n), S <= n), P = the operator's dense matrix"""
+    import linear_operator.operators as O
+
+    def exact_samples(self, num_samples):
+        Pm = self.to_dense().detach()
+        n = Pm.shape[-1]
+        ev, Q = torch.linalg.eigh(Pm)
+        root = Q @ torch.diag_embed(ev.clamp_min(0).sqrt()) @ Q.mT
+        g = torch.Generator().manual_seed(12345 + n)
+        q, _ = torch.linalg.qr(torch.empty(n, n, dtype=F64).normal_(generator=g))
+        z = root @ (math.sqrt(n) * q).to(Pm.dtype)
+        return z.movedim(-1, 0).contiguous()[:num_samples]
+    saved = {}
+    for nm in dir(O):
+        c = getattr(O, nm)
+        if isinstance(c, type) and "zero_mean_mvn_samples" in c.__dict__:
+            saved[c] = c.__dict__["zero_mean_mvn_samples"]
+            c.zero_mean_mvn_samples = exact_samples
+    try:
+        yield
+    finally:
+        for c, f in saved.items():
+            c.zero_mean_mvn_samples = f
+
+
+@contextlib.contextmanager
 def lo_settings(me, chol0, n, spectral=False, precond=False):
     S = lo().settings
     with contextlib.ExitStack() as st:
@@ -613,7 +639,7 @@ def lo_settings(me, chol0, n, spectral=False, precond=False):
             st.enter_context(S.tridiagonal_jitter(1e-9))
         if chol0:
             st.enter_context(S.max_cholesky_size(0))
-            st.enter_context(S.num_trace_samples(PRECOND_SAMPLES if precond else int(n)))
+            st.enter_context(S.num_trace_samples(int(n)))
             st.enter_context(S.max_lanczos_quadrature_iterations(max(20, int(n))))
         yield
 
@@ -696,11 +722,11 @@ def run_side(leaves, fn, a, is_op, me, chol0, seed, weights=None, precond=False)
             inputs.append(a[k])
     n = int(leaves.e_shape[-1])
     ctx_set = lo_settings(me, chol0, n, spectral=fn in MULTI_FNS, precond=precond) if is_op else contextlib.nullcontext()
-    # with a preconditioner the probes cannot be made exact (see TOL_PRECOND): plain seeded Gaussian draws, many of them
-    ctx_rnd = DetRandn(seed, probe_n=n if (chol0 and not precond) else None, dim=n).patched() if is_op \
-        else contextlib.nullcontext()
+    ctx_rnd = DetRandn(seed, probe_n=n if chol0 else None, dim=n).patched() if is_op else contextlib.nullcontext()
+    ctx_smp = exact_probe_sampler() if (is_op and chol0 and precond) else contextlib.nullcontext()
     ctx_set.__enter__()          # harness-side failures here must propagate (never classified as operator errors)
     ctx_rnd.__enter__()
+    ctx_smp.__enter__()
     try:
         if is_op:
             op = leaves.op
@@ -740,6 +766,7 @@ def run_side(leaves, fn, a, is_op, me, chol0, seed, weights=None, precond=False)
         if res["phase"] is None:
             res["phase"] = "forward"
     finally:
+        ctx_smp.__exit__(None, None, None)
         ctx_rnd.__exit__(None, None, None)
         ctx_set.__exit__(None, None, None)
     return res
@@ -803,7 +830,7 @@ def compare(case):
     (status ok/fail/skip, fail kind, offending input, errors).  The expression must already be `reshare`d."""
     e = case["expr"]
     fn, me, chol0, seed = case["fn"], bool(case["me"]), bool(case["chol0"]), int(case["seed"])
-    tol = TOL_PRECOND if case.get("precond") else tol_of(fn, chol0, case["fn_args"].get("gap"))
+    tol = tol_of(fn, chol0, case["fn_args"].get("gap"))
     out = {"status": "ok", "fail": None, "tol": tol}
     leaves = Leaves(e, case.get("rg_mask"))
     a = prepare_args(case["fn_args"], case.get("rhs_rg", True))
@@ -1238,7 +1265,7 @@ def emit(replay):
         if fn in ("logdet", "inv_quad_logdet"):
             out.append("# NOTE: under max_cholesky_size(0) the logdet gradient is a stochastic estimate (random probe vectors);")
             out.append("# the harness makes it exact with orthogonal probes - here expect agreement only up to sampling noise")
-            ctxs.append("settings.num_trace_samples(%d)" % (PRECOND_SAMPLES if replay.get("precond") else 500))
+            ctxs.append("settings.num_trace_samples(%d)" % (20000 if replay.get("precond") else 500))
     out.append("op = %s" % op_src)
     out.append("with %s:" % ", ".join(ctxs))
     out.append("    res = [%s]" % ", ".join(ops))
